@@ -70,6 +70,50 @@ mod verif_ift_patchmap {
         kani::cover!(r.is_err());
     }
 
+
+    // Entry::design_space_intersects (C19 "design-space conditions intersect that definition"): true iff SOME axis present in
+    // both spaces has overlapping segments - axes present on one side only do not matter, and one overlapping shared axis
+    // suffices whatever the other shared axes do (so the answer can only flip to true when the requested space grows).
+    //@harness unit=U19.7 props=C19 tier=quick level=bounded bound="two fixed axis tags (wght, wdth), each present or absent on either side, one segment per axis with any Fixed bounds" timeout=2400 fns=Entry::design_space_intersects,RangeSet::intersection
+    #[kani::proof]
+    #[kani::unwind(8)]
+    #[kani::stub(std::hash::RandomState::new, fixed_state)]
+    fn design_space_intersects_is_exists_shared_overlapping_axis() {
+        let tags = [Tag::new(b"wght"), Tag::new(b"wdth")];
+        let mut a: HashMap<Tag, RangeSet<Fixed>> = HashMap::new();
+        let mut b: HashMap<Tag, RangeSet<Fixed>> = HashMap::new();
+        let mut want = false;
+        let mut shared = 0;
+        let mut i = 0;
+        while i < 2 {
+            let (in_a, in_b): (bool, bool) = kani::any();
+            let (a0, a1, b0, b1): (i32, i32, i32, i32) = kani::any();
+            kani::assume(a0 <= a1 && b0 <= b1);
+            if in_a {
+                let mut r = RangeSet::default();
+                r.insert(Fixed::from_bits(a0)..=Fixed::from_bits(a1));
+                a.insert(tags[i], r);
+            }
+            if in_b {
+                let mut r = RangeSet::default();
+                r.insert(Fixed::from_bits(b0)..=Fixed::from_bits(b1));
+                b.insert(tags[i], r);
+            }
+            if in_a && in_b {
+                shared += 1;
+                if a0 <= b1 && b0 <= a1 {
+                    want = true;
+                }
+            }
+            i += 1;
+        }
+        let got = Entry::design_space_intersects(&a, &b);
+        assert!(got == want);
+        kani::cover!(shared == 2 && want);
+        kani::cover!(shared == 2 && !want);
+        kani::cover!(shared == 0);
+    }
+
     // NOTE: a harness decoding one whole entry (decode_format2_entry on <= 12 arbitrary bytes after one prior entry) did not
     // finish in 1800 s (String / HashMap / sparse-bit-set decoding) and was removed: that the decoder establishes entries_wf stays
     // an ASSUMPTION of unit U19.1.
